@@ -191,9 +191,11 @@ fn check_drop_future(fair: bool, queue: &[usize]) {
         assert!(kit::wakes(heir) == 1 && kit::total_wakes() == 1, "[C03] a woken future that is dropped passes the wake-up to the longest-waiting one, through its latest waker");
         assert!(node_state(&w, heir) == 2, "[C03] the heir holds the notification");
     } else {
-        assert!(kit::total_wakes() == 0, "[C03] nobody else is woken by a cancellation");
+        // (one assertion per mode: after a failed assert! nothing later on the path is checked)
         if fair {
-            assert!(kit::total_wakes() == 0, "[C04] fair: cancelling a future that held no wake-up does not disturb the others (nobody is handed a turn)");
+            assert!(kit::total_wakes() == 0, "[C03] [C04] fair: cancelling a future that held no wake-up wakes nobody and does not disturb the others (nobody is handed a turn)");
+        } else {
+            assert!(kit::total_wakes() == 0, "[C03] nobody else is woken by a cancellation");
         }
     }
     let mut j = 0;
